@@ -307,6 +307,49 @@ fn run_residual_grid(rep: &Arc<Report>, thorough: bool, only: Option<ResCase>) {
     rep.add_rule("Residual::new grid: block size{64,192,4096,32767} x partition order 0..=6 (dividing) x warm-up{0,1,4,24} x Rice parameter 0..=14 uniform/alternating x quotient patterns{all 0, all 1, one entry just below / just above the 2^32 SIMD-sum switch, true sum above 2^32, entries whose 32-bit sum wraps to zero, a quotient / a remainder in the warm-up positions (refused, or counted as written)}; giant residuals go to the counting sink only");
 }
 
+/// Components as the parser produces them from bytes nobody emitted: EVERY 3-byte input (2^24) followed by
+/// a fixed tail to `parser::subframe`, for block sizes that the partition orders of the 4-bit field do and
+/// do not divide; every accepted subframe must report exactly the bits it writes.
+fn run_parsed_subframe_space(rep: &Arc<Report>, thorough: bool) {
+    let params: Vec<(usize, usize)> = if thorough { vec![(100, 8), (16, 8), (33, 8), (2, 8), (24, 12), (100, 16), (7, 25)] } else { vec![(100, 8), (16, 8), (33, 8)] };
+    let tails: [u8; 3] = [0xFF, 0x55, 0x00];
+    let np = params.len();
+    par_for(
+        rep,
+        np * 3 * 256,
+        Duration::from_secs(900),
+        |i| json!({"parsed_subframe_space": params[i / 768], "tail": tails[(i / 256) % 3], "byte0": i % 256}),
+        |i, local| {
+            let (bs, bps) = params[i / 768];
+            let tail = tails[(i / 256) % 3];
+            let mut buf = vec![tail; 3 + (bs * bps + 7) / 8 + 8];
+            buf[0] = (i % 256) as u8;
+            let mut accepted = 0u64;
+            for b1 in 0..=255u8 {
+                buf[1] = b1;
+                for b2 in 0..=255u8 {
+                    buf[2] = b2;
+                    let r = panicx::catch(|| {
+                        let mut p = flacenc::component::parser::subframe::<nom::error::Error<(&[u8], usize)>>(bs, bps);
+                        p((&buf[..], 0usize)).ok().map(|(_, sf)| sf)
+                    });
+                    // a panic of the parser itself is C16's subject
+                    if let Ok(Some(sf)) = r {
+                        accepted += 1;
+                        let b = buf.clone();
+                        let cj = move || json!({"parsed_subframe_input": {"bs": bs, "bps": bps, "bytes": b}});
+                        check_component(rep, local, "parsed:subframe_from_arbitrary_bytes", &sf, &cj, 1, false);
+                    }
+                }
+            }
+            local.evals += 65536;
+            local.count("parsed_subframe_inputs", 65536);
+            local.count("parsed_subframe_inputs_accepted", accepted);
+        },
+    );
+    rep.add_rule("parser-produced components from bytes nobody emitted: every 3-byte input (2^24) x tails {FF.., 55.., 00..} to parser::subframe for (block size, width) in {(100,8),(16,8),(33,8)} (thorough: 7 pairs): each accepted subframe reports exactly the bits it writes (three sinks), and count_bits does not panic");
+}
+
 fn header_numbers() -> Vec<(bool, u64)> {
     let mut v = Vec::new();
     // every power of two (a wrong length formula may put its boundaries anywhere)
@@ -488,6 +531,21 @@ pub fn run(args: &Args, rep: &Arc<Report>) {
             rep.set_rule("replay of one Residual::new case");
             return;
         }
+        if let Some(pi) = c.get("parsed_subframe_input") {
+            let (bs, bps) = (pi["bs"].as_u64().unwrap() as usize, pi["bps"].as_u64().unwrap() as usize);
+            let buf: Vec<u8> = pi["bytes"].as_array().unwrap().iter().map(|x| x.as_u64().unwrap() as u8).collect();
+            let mut local = Local::default();
+            if let Ok(Some(sf)) = panicx::catch(|| {
+                let mut p = flacenc::component::parser::subframe::<nom::error::Error<(&[u8], usize)>>(bs, bps);
+                p((&buf[..], 0usize)).ok().map(|(_, sf)| sf)
+            }) {
+                let cj = || c.clone();
+                check_component(rep, &mut local, "parsed:subframe_from_arbitrary_bytes", &sf, &cj, 1, false);
+            }
+            rep.merge(local);
+            rep.set_rule("replay of one parsed subframe input");
+            return;
+        }
         if c.get("frame_header_new").is_some() || c.get("frame_header_new_then_set_offset").is_some() || c.get("metadata_unknown").is_some() || c.get("parsed_residual").is_some() {
             run_headers_and_metadata(rep);
             rep.set_rule("replay: constructor grids re-run");
@@ -510,6 +568,7 @@ pub fn run(args: &Args, rep: &Arc<Report>) {
     });
     if args.replay.is_none() {
         run_residual_grid(rep, thorough, None);
+        run_parsed_subframe_space(rep, thorough);
         run_headers_and_metadata(rep);
     }
     rep.add_rule("every Stream, StreamInfo, Frame (before and after precompute_bitstream), FrameHeader, ChannelAssignment, SubFrame, Constant/Verbatim/FixedLpc/Lpc and Residual reachable through the public accessors of every encoded stream (ST; MT where in scope) and of the same stream returned by parser::stream: count_bits() == bits received by MemSink<u8> == MemSink<u64> == a counting sink; frames, headers and streams are whole bytes; non-trivial = a stream with at least one frame");
